@@ -7,7 +7,7 @@ CONSTANT Names    \* names to call (Known plus some that are not registered)
 VARIABLE x
 
 DevIdeal == {}
-DevAsIs == {"TalkNamespaceLookup", "Rel2absNeedsArgument", "PadCountUnbounded", "PadEmptyPaddingDivides", "IntegerStringConversionLimit"}
+DevAsIs == {"TalkNamespaceLookup", "Rel2absNeedsArgument", "Rel2absResolvesOnHost", "PadCountUnbounded", "PadEmptyPaddingDivides", "IntegerStringConversionLimit"}
 \* the registered names as read at the time of writing (the harness passes the
 \* real list of the working tree to Gen_ParserFns)
 KnownBuiltin ==
@@ -20,7 +20,7 @@ NamesBuiltin == KnownBuiltin \cup {"#nosuchfunction", "#foo"}
 Numeric == {"NEG", "ZERO", "SEVEN", "HUGE", "WORD", "EMPTY", "SUP", "ARDIG"}
 Vectors ==
   {<<>>} \cup {<<a>> : a \in Atoms}
-  \cup {<<a, b>> : a \in {"WORD", "SEVEN", "EMPTY"}, b \in Numeric \cup {"FRAC", "BLANK", "EXPEMPTY", "PLUS", "EPOCH", "BADDATE", "TS14BAD", "TS14YR1", "ATEXP", "DIGITS", "DEEP"}}
+  \cup {<<a, b>> : a \in {"WORD", "SEVEN", "EMPTY"}, b \in Numeric \cup {"FRAC", "BLANK", "EXPEMPTY", "PLUS", "EPOCH", "BADDATE", "TS14BAD", "TS14YR1", "ATEXP", "DIGITS", "DEEP", "NUL", "CTRL", "NLIN", "LONGW"}}
   \cup {<<a, b, c>> : a \in {"WORD", "EMPTY"}, b \in {"SEVEN", "NEG", "HUGE"}, c \in {"EMPTY", "EXPEMPTY", "WORD", "DIGITS"}}
 
 \* four-argument calls (text, delimiter, position / start, limit / length), on the plain title only
